@@ -94,6 +94,7 @@ func HarnessC05Output() {
 		vx.Assert(!strings.Contains(out, " class=") && !strings.Contains(out, " data-"), "class/data-* attribute outside an embed placeholder")
 	} else {
 		vx.Cover("placeholder")
-		vx.Assert(strings.Contains(out, "embed-placeholder"), "recognised embed has no placeholder")
+		// (an embed that the planted attribute hides is rightly dropped)
+		vx.Assert(key == "hidden" || strings.Contains(out, "embed-placeholder"), "recognised embed has no placeholder")
 	}
 }
